@@ -608,8 +608,9 @@ def suite_roundtrip(tier, rng):
 def run(tier, seed):
     rng = rng_for(seed, "c04")
     suites = [suite_encode(tier, rng), suite_parser(tier, rng), suite_frames(tier, rng), suite_sessions(tier, rng), suite_roundtrip(tier, rng)]
-    return suites
-
+    from .. import extra as _extra
+    _more = [_extra.suite_served_is_signed(tier, seed), _extra.suite_limited_frames(tier, seed)]
+    return list(suites) + _more
 
 def replay(payload):
     v = payload["violation"]
